@@ -382,7 +382,12 @@ class QvmCpu:
         instr, operands, size = self.get_current_instruction()
         if instr.op == 'call':
             prev_pc = self.pc
-            bp = lambda cpu: (cpu.pc == prev_pc + size)
+            depth = self.frame_depth()
+            # in a recursive routine the address after the call is
+            # also reached in deeper activations, when their own calls
+            # return: only stop in the activation we started in
+            bp = lambda cpu: (cpu.pc == prev_pc + size and
+                              cpu.frame_depth() <= depth)
             self.add_breakpoint(bp)
             try:
                 ret = self.run()
@@ -395,6 +400,15 @@ class QvmCpu:
         else:
             self.tick()
             return True
+
+    def frame_depth(self):
+        "Number of active call frames."
+        depth = 0
+        frame = self.cur_frame
+        while frame is not None:
+            depth += 1
+            frame = frame.prev_frame
+        return depth
 
     def add_breakpoint(self, bp):
         self.breakpoints.append(bp)
